@@ -1,8 +1,9 @@
+\* same constants as checks/C14.py uses for the quick model-checking run (keep mode); the check generates its configs itself
 SPECIFICATION Spec
 CONSTANTS
   NS = 3
   MaxGen = 1
-  MaxOps = 4
+  MaxOps = 3
   MaxFiles = 3
   MaxCreate = 2
   SfileDelete = FALSE
